@@ -93,7 +93,7 @@ func newFileSet(env *env, p string, r *FileSet) (*fileSet, error) {
 	bads := make(map[string]bool)
 	ignore := func(name string) bool {
 		for _, i := range ignoreDirs {
-			if strings.HasPrefix(name, i) {
+			if i == "" || strings.HasPrefix(name, i+"/") {
 				return true
 			}
 		}
